@@ -44,6 +44,15 @@ func next(kind string) *big.Int {
 		exhausted = true
 		return new(big.Int)
 	}
+	// entries of kind "now" are wall-clock readings taken inside the engine; natively the real
+	// clock is used and they are skipped
+	for pos < len(cur.Entries) && cur.Entries[pos].K == "now" {
+		pos++
+	}
+	if pos >= len(cur.Entries) {
+		exhausted = true
+		return new(big.Int)
+	}
 	e := cur.Entries[pos]
 	pos++
 	if e.K != kind {
